@@ -33,7 +33,10 @@ def main(argv=None):
         mid = [SR.random_super_input(rng, 4, rng.randint(2, 3), 3, True, rootsyn_p=0.2) for _ in range(200)]
         big = [SR.random_super_input(rng, rng.randint(4, 5), rng.randint(3, 4), 4, True, rootsyn_p=0.2) for _ in range(50)]
         budget, mp, bs = 1800, 30000, 900.0
+    hist = [SR.random_super_input(rng, 3, rng.randint(2, 3), rng.randint(2, 3), True, consistent_p=0.9) for _ in range(10 if tier == "quick" else 80)]
     sections = [
+        ("call history: the same solver called earlier in the same interpreter (same input at default costs, sibling input at other costs), "
+         "then explored with five symbolic costs", [(d, SR.history_runs(algos, FLAGS)) for d in hist], False),
         ("2-3 leaves, five symbolic costs", [(d, SR.runs_for(algos, ["any", "all"], FLAGS, "full")) for d in small], tier == "thorough"),
         ("4 leaves, five symbolic costs", [(d, SR.runs_for(algos, ["any", "all"], FLAGS, "full")) for d in mid], False),
         ("4-5 leaves x 4 families, dup/hgt/sloss symbolic (spe=0, floss=1)", [(d, SR.runs_for(algos, ["any"], FLAGS, "dhs")) for d in big], False),
